@@ -112,6 +112,25 @@ Theorem C11_source_edge_readers : forall g gg oo s, rep_graph gg g -> rep_orient
   CFOrientation_is_sink gg oo a b = (if edge_ok g a b then PyOk (if dir_at s a b =? 0 then None else Some (dir_at s a b =? 2)) else PyExn tt).
 Proof. intros g gg oo s Hg Ho a b. split; [apply get_orientation_refines; assumption|]. split; [apply is_source_refines; assumption|apply is_sink_refines; assumption]. Qed.
 Print Assumptions C11_source_edge_readers.
+(* divisor() and canonical_divisor(), translated from the CURRENT source (they build [(v, in-degree(v) - 1)] resp. [(v, valence(v) - 2)] over the vertex set and hand it to the
+   translated CFDivisor constructor): divisor() is exactly the model's o_divisor - it checks fullness if that has not been done, refuses an orientation that is not full and
+   otherwise returns a new divisor representing in-degree - 1; canonical_divisor() represents canonical_g (valence - 2); any iteration order *)
+Theorem C11_source_divisors : forall g gg vs so, wfb g = true -> rep_graph gg g -> rep_vset (nv g) vs -> NoDup vs -> (forall l, Permutation (so l) l) ->
+  (forall oo s ind, rep_orient oo g s -> rep_div (nv g) ind (inc s) ->
+     match CFOrientation_divisor (is_full_checked s) (is_full s) vs gg oo ind so with
+     | PyOk ((dd, t), (isf', isfc')) => o_divisor g s = (ensure_checked g s, Ok (tab (nv g) (fun v => nthZ (inc (ensure_checked g s)) v - 1))) /\
+          isf' = is_full (ensure_checked g s) /\ isfc' = is_full_checked (ensure_checked g s) /\
+          rep_div (nv g) dd (tab (nv g) (fun v => nthZ (inc (ensure_checked g s)) v - 1)) /\ t = zsum (fun v => nthZ (inc (ensure_checked g s)) v - 1) (seq 0 (nv g))
+     | PyExn (isf', isfc') => o_divisor g s = (ensure_checked g s, Err) /\ isf' = is_full (ensure_checked g s) /\ isfc' = is_full_checked (ensure_checked g s) end) /\
+  (forall vtv V, rep_div (nv g) vtv V -> (forall v, (v < nv g)%nat -> nthZ V v = valg g v) ->
+     exists dd, CFOrientation_canonical_divisor vs vtv gg so = PyOk (dd, zsum (fun v => valg g v - 2) (seq 0 (nv g))) /\ rep_div (nv g) dd (canonical_g g)).
+Proof. intros g gg vs so Hwf Hg Hvs Hnd Hso. split.
+  - intros oo s ind Ho Hi. pose proof (divisor_refines g Hwf gg Hg vs Hvs Hnd so Hso oo s ind Ho Hi) as H. cbv zeta in H.
+    destruct (CFOrientation_divisor (is_full_checked s) (is_full s) vs gg oo ind so) as [[[dd t] [a b]]|[a b]].
+    + destruct H as (H1 & H2 & H3 & H4 & H5). split; [unfold o_divisor; cbv zeta; rewrite H1; reflexivity|]. split; [exact H2|]. split; [exact H3|]. split; [exact H4|exact H5].
+    + destruct H as (H1 & H2 & H3). split; [unfold o_divisor; cbv zeta; rewrite H1; reflexivity|]. split; [exact H2|exact H3].
+  - intros vtv V HV Hval. apply (canonical_divisor_refines g gg Hg vs Hvs Hnd so Hso vtv V HV Hval). Qed.
+Print Assumptions C11_source_divisors.
 Example C11_source_nonvacuous : let g := [[0;2;1];[2;0;1];[1;1;0]] in
   let oo := [(0%nat, [(1%nat, 0); (2%nat, 0)]); (1%nat, [(0%nat, 0); (2%nat, 0)]); (2%nat, [(0%nat, 0); (1%nat, 0)])] in
   match CFOrientation_set_orientation oo (dict_of_graph g) (dict_of_div [0;0;0]) (dict_of_div [0;0;0]) false false 1%nat 0%nat 1 with
